@@ -622,5 +622,11 @@ def check(ctx):
     # every operator to its operands in the declared order (C09 d)
     from .c09 import check_exec
     check_exec(ctx)
+    # Round 8: Data(n).repeated(count) is count sized reads, one per element (C08 sequence language)
+    from .c08 import check_sequence_unpack
+    try:
+        check_sequence_unpack(ctx, repo.cls('Sequence'))
+    except Undecided as e:
+        ctx.undecided('C08-sequence-unpack', ('bisturi/structural_fields.py', 'Sequence'), 'Sequence.unpack', str(e), 0)
 
     ctx.trust(*ASSUMPTIONS)
